@@ -107,6 +107,12 @@ func structNameKeyLists(s *Schema) []string {
 						out = append(out, l.Path())
 					}
 				}
+				if packageHelpers[yang.CamelCase(l.Name)] {
+					out = append(out, "helper:"+l.Path())
+				}
+			}
+			if packageHelpers[yang.CamelCase(w.Name)] {
+				out = append(out, "helper:"+w.Path())
 			}
 		}
 	}
@@ -170,7 +176,7 @@ func TestYanggenSelf(t *testing.T) {
 		{}, {Hostile: true}, {OpenConfigStyle: true}, {OpenConfigStyle: true, Hostile: true},
 		{Small: true, MaxModules: 1}, {Small: true, OpenConfigStyle: true, MaxModules: 2},
 		{Hostile: true, Excluded: map[string]bool{ClEnumUNSET: true, ClKeyKey: true, ClKeyOrder: true, ClIdentSameName: true}},
-		{Hostile: true, OpenConfigStyle: true, Excluded: map[string]bool{ClKeyKey: true, ClKeyOrder: true, ClKeyStructName: true}},
+		{Hostile: true, OpenConfigStyle: true, Excluded: map[string]bool{ClKeyKey: true, ClKeyOrder: true, ClKeyStructName: true, ClTopHelper: true}},
 	}
 	rapid.Check(t, func(rt *rapid.T) {
 		o := modes[rapid.IntRange(0, len(modes)-1).Draw(rt, "mode")]
@@ -200,8 +206,14 @@ func TestYanggenSelf(t *testing.T) {
 			rt.Fatalf("class %s: label count %d, lists with the shape in the compiled schema: %v\n%s", ClKeyOrder, s.Features["collision:"+ClKeyOrder], mis, s.Key())
 		}
 		if o.OpenConfigStyle {
-			if ls := structNameKeyLists(s); len(ls) > 0 && s.Features["collision:"+ClKeyStructName] == 0 {
-				rt.Fatalf("class %s not labelled but present in the compiled schema: %v\n%s", ClKeyStructName, ls, s.Key())
+			for _, l := range structNameKeyLists(s) {
+				cl := ClKeyStructName
+				if strings.HasPrefix(l, "helper:") {
+					cl = ClTopHelper
+				}
+				if s.Features["collision:"+cl] == 0 {
+					rt.Fatalf("class %s not labelled but present in the compiled schema: %v\n%s", cl, l, s.Key())
+				}
 			}
 		}
 		if errs := accepts(s); len(errs) > 0 {
